@@ -16,6 +16,7 @@ mod exec;
 mod fmtchecks;
 mod metamorph;
 mod opmatrix;
+mod ownership;
 mod execchecks;
 mod values;
 mod w2;
